@@ -123,7 +123,7 @@ func (ex *Exec) globalInitValue(g *ssa.Global, c *Cell) (Term, bool) {
 	if os.Getenv("GVC_DEBUG") != "" {
 		fmt.Fprintln(os.Stderr, "globalInit", g.Name(), found, result.Sort, c.Sort)
 	}
-	if found && result.Sort == c.Sort {
+	if found && sameSort(result.Sort, c.Sort) {
 		return result, true
 	}
 	return Term{}, false
